@@ -159,7 +159,7 @@ Definition enc (alts : list palt) : list nat :=
 
 
 def model_expand(layouts):
-    out = vlib.coq_eval_value("c12", HDR, "flat_map enc [%s]" % "; ".join(l.coq() for l in layouts), timeout=900)
+    out = vlib.coq_eval_value("c12", HDR, "flat_map enc [%s]" % "; ".join(l.coq() for l in layouts), timeout=2400)
     nums = [int(x) for x in re.findall(r"\d+", out.split(":")[0])]
     pos, res = 0, []
     for _ in layouts:
